@@ -33,6 +33,13 @@ def run(ck, tier):
                       message='%s framer keeps a frame whose %s failed in its buffer: the same bytes are re-examined on every call and all later frames are blocked'
                               % (kind, bad[0][1]))
                 ck.ob('R1', f.qn, 'a corrupt frame is not delivered', not [d for d in fp.deliveries if d > i0], detail='delivery-after-failed-check', loc=cx.floc(f))
+            swallowed = [i for i, ev in enumerate(fp.path.ev) if ev.kind == 'handler']
+            if swallowed and not (fp.exit and fp.exit[0] == 'exc'):
+                later = [s for s in fp.shrinks if s[0] > swallowed[0]]
+                ck.ob('R1', f.qn, 'an exception the framer catches itself is followed by progress (the undigestible bytes are dropped)', bool(later),
+                      detail='no-progress-after-swallowed-exception', loc=cx.floc(f),
+                      message='%s framer catches %s inside processIncomingPacket and returns without dropping anything: the handler never sees the '
+                              'exception (so it does not reset the framer) and the same bytes fail again on every later call' % (kind, fp.path.ev[swallowed[0]].b))
             if fp.unit_reject is not None:
                 n2 += 1
                 later = [s for s in fp.shrinks if s[0] > fp.unit_reject]
